@@ -53,6 +53,9 @@ pub struct State {
     pub interrupt_every: u64,
     pub reads: u64,
     pub logging: bool,
+    /// a stream that cannot seek relative to its end: every SeekFrom::End fails with ERROR_KINDS[k] (counted as a
+    /// fired fault); SeekFrom::Start and reads work
+    pub seek_end_fails: Option<u8>,
 }
 
 #[derive(Clone)]
@@ -71,6 +74,10 @@ impl Reader {
     /// first, or reuses a handle): legal for a Read+Seek.
     pub fn at_position(self, pos: u64) -> Reader {
         self.st.borrow_mut().pos = pos;
+        self
+    }
+    pub fn without_seek_end(self, ekind: u8) -> Reader {
+        self.st.borrow_mut().seek_end_fails = Some(ekind);
         self
     }
     pub fn calls(&self) -> u64 {
@@ -186,6 +193,13 @@ impl Reader {
                 return Err(io::Error::new(ek, "injected seek error"));
             }
             _ => {}
+        }
+        if let (Some(k), SeekFrom::End(_)) = (st.seek_end_fails, to) {
+            st.fired += 1;
+            if st.logging {
+                st.log.push(Op::Fault { call, kind: FaultKind::Error });
+            }
+            return Err(io::Error::new(ERROR_KINDS[k as usize % ERROR_KINDS.len()], "this stream cannot seek from its end"));
         }
         let len = st.data.len() as i128;
         let new: i128 = match to {
